@@ -78,6 +78,10 @@ def replay_state(chk, kind, cat_elems, st, container, style, p, bigps):
             obj = obj[h["a"]:h["b"]] if container == "array" else obj.iloc[h["a"]:h["b"]]
             has_index = False
             desc.append(f"[{h['a']}:{h['b']}]")
+        elif h["op"] == "step":
+            obj = obj[::h["a"]] if container == "array" else obj.iloc[::h["a"]]
+            has_index = False
+            desc.append(f"[::{h['a']}]")
         elif h["op"] == "copy":
             obj = obj.copy()
             has_index = False
@@ -150,9 +154,9 @@ def run(tier: str, seed: int) -> int:
     jobs = []
     plan = []
     for kind, cat in CATS:
-        n, maxps, stride, ns, which = (2, 2, 7, 16, range(0, 5)) if quick else (3, 3, 1, 64, None)
+        n, maxps, stride, ns, which = (2, 2, 7, 16, range(0, 3)) if quick else (3, 3, 1, 64, None)
         if quick and kind in ("ring", "multipoint", "multiline"):
-            which = range(0, 2)
+            which = range(0, 1)
         js = shard_jobs("MC_GeoFrame", dict(constants=dict(Kind=kind, Elems="<- " + cat, MaxOps=4, N=n, MaxPS=maxps, KeyStride=stride,
                                                            AllPerms=not quick),
                                             invariants=["CxExact"]), ns, which=which, dump=True, continue_=True, timeout=3000)
